@@ -1122,7 +1122,9 @@ fn scope_pass_top(block: &mut syn::Block, patterns: &[String], param_guards: &[p
             };
             if let (Some(id), Some(init)) = (id, &l.init) {
                 let s = tok(&init.expr);
-                if patterns.iter().any(|p| s.contains(p.as_str())) {
+                // `let x = { let g = m.lock(); .. };`: the guard lives (and dies) in the inner block, x is its value
+                let inner_scope = matches!(&*init.expr, Expr::Block(_));
+                if !inner_scope && patterns.iter().any(|p| s.contains(p.as_str())) {
                     guards.push((i, id));
                 }
             }
@@ -1947,6 +1949,32 @@ impl Unit {
             })
             .collect();
         let guard_pats: Vec<String> = self.guards.iter().filter(|g| !g.starts_with("param:")).cloned().collect();
+        {
+            // R-TMPGUARD: `<lock acquisition>.m(args);` as an expression statement holds the guard in a temporary, which the
+            // language drops at the end of that statement; spelled out with a named guard and an explicit drop
+            struct TmpGuard<'a> { pats: &'a [String], log: &'a mut Vec<String>, n: usize }
+            impl<'a> VisitMut for TmpGuard<'a> {
+                fn visit_block_mut(&mut self, b: &mut syn::Block) {
+                    visit_mut::visit_block_mut(self, b);
+                    for st in b.stmts.iter_mut() {
+                        if let Stmt::Expr(Expr::MethodCall(mc), Some(_)) = st {
+                            let r = tok(&mc.receiver);
+                            if self.pats.iter().any(|p| r.ends_with(p.as_str()) || r.contains(&format!("{p}.expect(")) || r.ends_with(&format!("{p}?")))
+                                && !matches!(&*mc.receiver, Expr::Path(_))
+                            {
+                                let recv = &mc.receiver; let m = &mc.method; let args = &mc.args; let tf = &mc.turbofish;
+                                let g = quote::format_ident!("__fjx_tg{}", self.n);
+                                self.n += 1;
+                                let new: Stmt = parse_quote! { { let mut #g = #recv; let __fjx_tr = #g.#m #tf (#args); drop(#g); __fjx_tr }; };
+                                self.log.push(format!("R-TMPGUARD temporary lock guard of `.{}(..)` bound and dropped at the end of its statement (language definition)", m));
+                                *st = new;
+                            }
+                        }
+                    }
+                }
+            }
+            TmpGuard { pats: &guard_pats, log: &mut log, n: 0 }.visit_block_mut(&mut block);
+        }
         scope_pass(&mut block, &guard_pats, &param_guards, &mut log);
         // R-ITER: `p: impl Iterator<Item = &'a T>` -> `p: &'a [T]`, `for x in p` -> `for x in p.iter()`
         for pname in &spec.iter_params {
